@@ -107,15 +107,17 @@ theorem plain_frees_below_gates (d : Desc) :
 /-- **Everything but the timer bookkeeping is released exactly once** — any module tree, any gate
     wiring (rings included), any channel backlog, any pending / remaining / buffered events, any
     blocked tasks, shut-down modules, messages kept in module state. -/
-theorem all_good_nodes_freed_once (d : Desc) (hk : d.keepChan = false) :
+theorem all_good_nodes_freed_once (d : Desc) (hk : d.keepChan = false) (hh : d.hookGlobals = false) :
     (dropSim d).err = none ∧
       ∀ v ∈ nodesOf d, good v = true → freedCount (dropSim d) v = 1 := by
+  have hheap : heapEdges d = mkEdges d := by simp [heapEdges, hookEdges, hh]
+  unfold dropSim nodesOf
+  rw [hheap]
   have h := dropRoots_ranked nidSem (mkEdges d) roots (fun v => good v = true) (rank d)
     (ranked_of_wired d hk (wired_all d))
   refine ⟨h.1, ?_⟩
   intro v hv hg
   refine h.2 v hg ?_
-  unfold nodesOf at hv
   rcases List.mem_append.mp hv with hr | ht
   · have : 0 < roots.count v := List.count_pos_iff.mpr hr
     omega
@@ -129,9 +131,9 @@ theorem all_good_nodes_freed_once (d : Desc) (hk : d.keepChan = false) :
 /-- **Every user-visible object (module state, processing element, task state, message body, channel
     probe) is
     dropped exactly once and none stays alive.** -/
-theorem all_user_objects_freed_once (d : Desc) (hk : d.keepChan = false) :
+theorem all_user_objects_freed_once (d : Desc) (hk : d.keepChan = false) (hh : d.hookGlobals = false) :
     (dropSim d).err = none ∧ leaked d = [] := by
-  have h := all_good_nodes_freed_once d hk
+  have h := all_good_nodes_freed_once d hk hh
   refine ⟨h.1, ?_⟩
   unfold leaked
   simp only
@@ -180,5 +182,18 @@ theorem timer_bookkeeping_residue_witness :
   decide +kernel
 
 example : sleeper.keepChan = false ∧ leaked sleeper = [] := by decide +kernel
+
+/-- one started module, stepped and dropped without `finish()` -/
+def stepped (hook : Bool) : Desc :=
+  { mods := [⟨none, 1, true, [⟨.sleep 0, false⟩], 1, []⟩], gates := [], links := []
+    fes := [.wakeup 0], rem := [], buf := [], stop := .stepped, hookGlobals := hook }
+
+/-- **A panic hook that captures `Arc<Globals>` keeps the module tree alive** when the simulation is
+    dropped without `at_sim_end` having run to its end (seeded variant, not the current code). -/
+theorem hook_holds_globals_witness :
+    leaked (stepped true) = [.state 0, .pe 0 0, .taskState 0 0] := by
+  decide +kernel
+
+example : leaked (stepped false) = [] := by decide +kernel
 
 end C20
